@@ -29,7 +29,24 @@ func init() { register("C16", runC16, evalC16) }
 // ---------------------------------------------------------------------------
 // scenario alphabet (shared by the explorer, the race pass and replay)
 
-func c16Pool() []geojson.Object {
+// c16Pool builds every shared object afresh.
+func c16Pool() []geojson.Object { return c16PoolOnly(nil) }
+
+// c16Fresh rebuilds only the objects a scenario touches (fresh objects for
+// every execution: a lazily built cache must not survive from the previous
+// schedule, or later schedules would never see it being built).
+func c16Fresh(sc c16Scenario) []geojson.Object {
+	need := map[int]bool{}
+	for _, c := range sc.Calls {
+		need[c.Recv] = true
+		if c.Arg >= 0 {
+			need[c.Arg] = true
+		}
+	}
+	return c16PoolOnly(need)
+}
+
+func c16PoolOnly(need map[int]bool) []geojson.Object {
 	P := func(x, y float64) geometry.Point { return geometry.Point{X: x, Y: y} }
 	must := func(s string, o *geojson.ParseOptions) geojson.Object {
 		obj, err := geojson.Parse(s, o)
@@ -46,22 +63,47 @@ func c16Pool() []geojson.Object {
 	idx1 := &geojson.ParseOptions{IndexChildren: 1, IndexGeometry: 1, IndexGeometryKind: geometry.QuadTree}
 	noidx := &geojson.ParseOptions{IndexChildren: 0, IndexGeometry: 0, IndexGeometryKind: geometry.None}
 	holed := `{"type":"Polygon","coordinates":[[[-2,-2],[2,-2],[2,2],[-2,2],[-2,-2]],[[0,0],[1,0],[1,1],[0,0]]]}`
-	return []geojson.Object{
-		geojson.NewPoint(P(0.5, 0.25)),
-		geojson.NewSimplePoint(P(0, 0)),
-		geojson.NewLineString(geometry.NewLine([]geometry.Point{P(-1, -1), P(0, 0), P(1, 0)}, nil)),
-		geojson.NewLineString(geometry.NewLine(longLine, &geometry.IndexOptions{Kind: geometry.RTree, MinPoints: 1})),
-		geojson.NewPolygon(geometry.NewPoly(concave, nil, &geometry.IndexOptions{Kind: geometry.None})),
-		must(holed, idx1),
-		geojson.NewRect(geometry.Rect{Min: P(-0.5, -0.5), Max: P(0.75, 0.5)}),
-		geojson.NewCircle(P(0, 0), 80000, 12),
-		must(`{"type":"MultiPoint","coordinates":[[0,0],[1,1],[0.5,0.25]]}`, idx1),
-		must(`{"type":"MultiPolygon","coordinates":[[[[-1,-1],[0,-1],[0,0],[-1,-1]]],[[[0,0],[1,0],[1,1],[0,0]]]]}`, noidx),
-		must(`{"type":"GeometryCollection","geometries":[{"type":"Point","coordinates":[0,0]},{"type":"LineString","coordinates":[[-1,1],[1,1]]}]}`, noidx),
-		must(`{"type":"FeatureCollection","features":[{"type":"Feature","geometry":{"type":"Point","coordinates":[1,1]},"properties":{}},{"type":"Feature","geometry":`+holed+`,"id":2}]}`, idx1),
-		geojson.NewFeature(geojson.NewPolygon(geometry.NewPoly(concave, nil, nil)), `{"id":"f"}`),
-		geojson.NewPolygon(must(holed, idx1).(*geojson.Polygon).Base().Move(0.5, 0.5)),
+	ctors := []func() geojson.Object{
+		func() geojson.Object { return geojson.NewPoint(P(0.5, 0.25)) },
+		func() geojson.Object { return geojson.NewSimplePoint(P(0, 0)) },
+		func() geojson.Object {
+			return geojson.NewLineString(geometry.NewLine([]geometry.Point{P(-1, -1), P(0, 0), P(1, 0)}, nil))
+		},
+		func() geojson.Object {
+			return geojson.NewLineString(geometry.NewLine(longLine, &geometry.IndexOptions{Kind: geometry.RTree, MinPoints: 1}))
+		},
+		func() geojson.Object {
+			return geojson.NewPolygon(geometry.NewPoly(concave, nil, &geometry.IndexOptions{Kind: geometry.None}))
+		},
+		func() geojson.Object { return must(holed, idx1) },
+		func() geojson.Object { return geojson.NewRect(geometry.Rect{Min: P(-0.5, -0.5), Max: P(0.75, 0.5)}) },
+		func() geojson.Object { return geojson.NewCircle(P(0, 0), 80000, 12) },
+		func() geojson.Object {
+			return must(`{"type":"MultiPoint","coordinates":[[0,0],[1,1],[0.5,0.25]]}`, idx1)
+		},
+		func() geojson.Object {
+			return must(`{"type":"MultiPolygon","coordinates":[[[[-1,-1],[0,-1],[0,0],[-1,-1]]],[[[0,0],[1,0],[1,1],[0,0]]]]}`, noidx)
+		},
+		func() geojson.Object {
+			return must(`{"type":"GeometryCollection","geometries":[{"type":"Point","coordinates":[0,0]},{"type":"LineString","coordinates":[[-1,1],[1,1]]}]}`, noidx)
+		},
+		func() geojson.Object {
+			return must(`{"type":"FeatureCollection","features":[{"type":"Feature","geometry":{"type":"Point","coordinates":[1,1]},"properties":{}},{"type":"Feature","geometry":`+holed+`,"id":2}]}`, idx1)
+		},
+		func() geojson.Object {
+			return geojson.NewFeature(geojson.NewPolygon(geometry.NewPoly(concave, nil, nil)), `{"id":"f"}`)
+		},
+		func() geojson.Object {
+			return geojson.NewPolygon(must(holed, idx1).(*geojson.Polygon).Base().Move(0.5, 0.5))
+		},
 	}
+	out := make([]geojson.Object, len(ctors))
+	for i, c := range ctors {
+		if need == nil || need[i] {
+			out[i] = c()
+		}
+	}
+	return out
 }
 
 type c16Call struct {
